@@ -325,8 +325,7 @@ def prepare_dataset(ctx, rng, index, planted=True):
         zs = [v for _, v in case['z']]
         span = max(zs) - min(zs)
         fine = [g for g in (0.5, 0.25, 0.2, 0.1, 0.05, 0.02) if span / g >= 600]
-        if fine:
-            case['grid_step'] = fine[0]
+        case['grid_step'] = fine[0] if fine else span / 650.0
     db = os.path.join(ctx.workdir, 'k{}.sqlite3'.format(index))
     err = curves_common.make_curves_db(ctx, case, db, curvature=rng.choice([2.36, 0.5, 1.0]))
     if err:
@@ -341,6 +340,13 @@ def prepare_dataset(ctx, rng, index, planted=True):
 
 def run_dataset(ctx, rng, index):
     case, db, info = prepare_dataset(ctx, rng, index, planted=index % 3 != 2)
+    for _ in range(4):
+        # the fine-grid class is required: draw again when a record gave no curves or too few levels
+        if index % 3 != 1 or (db is not None and len(info[2]) > 512):
+            break
+        if db is not None:
+            os.remove(db)
+        case, db, info = prepare_dataset(ctx, rng, index, planted=True)
     if db is None:
         return
     zlo, zhi, rise_rows = info
